@@ -13,7 +13,7 @@ META = dict(
     shards={"quick": 10, "thorough": 16},
     watchdog_s={"quick": 1500, "thorough": 5400},
     evaluations_counter="cases",
-    min={"histories": 200, "freeze_steps": 200, "second_freeze_steps": 80, "deepcopy_steps": 60, "move_steps": 60, "other_copy_steps": 100,
+    min={"histories": 200, "freeze_steps": 200, "second_freeze_steps": 80, "deepcopy_steps": 60, "move_steps": 60, "other_copy_steps": 100, "inference_mode_forwards": 60,
          "compaction_checks": 200, "transitions_checked": 1000},
     anchors=["quantize.py:freeze",
              "nn/qmodule.py:QModuleMixin.freeze",
@@ -36,7 +36,8 @@ META = dict(
 DT = [torch.float32, torch.float16, torch.bfloat16]
 WQ = ["qint8", "qfloat8", "qfloat8_e4m3fn", "qfloat8_e5m2", "qint4", "qint2"]
 AQ = [None, None, "qint8", "qfloat8"]
-STEPS = ["forward", "calibrate", "calibrate_grad", "freeze", "freeze", "to_cpu", "cpu", "deepcopy", "to_device_obj",
+STEPS = ["forward", "calibrate", "calibrate_grad", "freeze", "freeze", "to_cpu", "cpu", "deepcopy", "forward_inference_mode",
+         "to_device_obj",
          "to_non_blocking", "copy", "pickle", "torch_save_module", "apply_clone", "reload_own_state"]
 
 
@@ -94,7 +95,8 @@ def run(ctx):
         aq = AQ[int(rng.integers(len(AQ)))]
         kind = lifecycle.MODEL_KINDS[int(rng.integers(len(lifecycle.MODEL_KINDS)))]
         L = int(rng.integers(3, 9))
-        steps = [STEPS[int(rng.integers(8))] if rng.random() < 0.65 else STEPS[8 + int(rng.integers(len(STEPS) - 8))]
+        core = STEPS[:9] + ["freeze"]  # freeze three times in ten among the core steps
+        steps = [core[int(rng.integers(len(core)))] if rng.random() < 0.65 else STEPS[9 + int(rng.integers(len(STEPS) - 9))]
                  for _ in range(L)]
         if "freeze" not in steps:
             steps[int(rng.integers(L))] = "freeze"
@@ -137,6 +139,22 @@ def run(ctx):
                 if step == "forward":
                     with torch.no_grad():
                         model(lifecycle.batch(r, shape, wd))
+                elif step == "forward_inference_mode":
+                    # torch.inference_mode() is the recommended inference context; parameters were created outside it
+                    def meta(o):
+                        return (type(fp.unwrap_param(o)).__name__, tuple(o.shape), str(o.dtype)) if isinstance(o, torch.Tensor) \
+                            else repr(type(o))
+
+                    with torch.no_grad():
+                        want_inf = [meta(model(x_)) for x_ in probes]
+                    with torch.inference_mode():
+                        got_inf = [meta(model(x_)) for x_ in probes]
+                    ctx.count("inference_mode_forwards")
+                    # the model must run there (an exception is reported as step_raises) and return the same kind of
+                    # result; torch itself decomposes matmul differently in the two contexts, so bits are not compared
+                    if got_inf != want_inf:
+                        ctx.violation(dict(sig0, kind="result_kind_differs_under_inference_mode", frozen=frozen),
+                                      dict(desc=desc, step_index=si, got=str(got_inf)[:200], want=str(want_inf)[:200]))
                 elif step == "calibrate":
                     with torch.no_grad(), oq.Calibration(streamline=False):
                         model(lifecycle.batch(r, shape, wd))
